@@ -29,8 +29,8 @@ Inters == SubSeq(AllInters, 1, NInter)
 DerivsB == <<"dx_dt", "dy_dt">>
 Build == Inters \o DerivsB
 Leaves == {"x", "y", "p", "q", "t"}
-Allowed(i) == Leaves \cup ({Build[j] : j \in 1..(i - 1)} \ {"dx_dt", "dy_dt"})
-DepChoices(i) == {S \in SUBSET Allowed(i) : Cardinality(S) <= 2}
+Allowed(i, lo) == (IF lo = "noparams" THEN Leaves \ {"p", "q"} ELSE Leaves) \cup ({Build[j] : j \in 1..(i - 1)} \ {"dx_dt", "dy_dt"})
+DepChoices(i, lo) == {S \in SUBSET Allowed(i, lo) : Cardinality(S) <= 2}
 LitTok(i) == CASE i = 1 -> "3" [] i = 2 -> "5" [] i = 3 -> "7" [] i = 4 -> "2" [] i = 5 -> "4" [] OTHER -> "6"
 
 \* expression of assignment number i over its (name-sorted) dependency sequence ds
@@ -48,8 +48,9 @@ Tpl(i, ds) ==
          [] i % 4 = 2 -> Cond(Rel("Gt", d1, d2), Bn("sub", d1, N("1")), Bn("mul", d2, N("2")))
          [] OTHER     -> Bn("sub", d1, Bn("div", d2, N("2")))
 
-CompLayouts == {"single", "split"}
-CompOf(layout, n) == IF layout = "single" THEN ""
+\* "noparams": one component, no parameters block at all (degenerate shape the templates must survive)
+CompLayouts == {"single", "split", "noparams"}
+CompOf(layout, n) == IF layout \in {"single", "noparams"} THEN ""
                      ELSE IF n \in {"x", "p", "u", "c", "dx_dt"} THEN "A" ELSE "B"
 
 VARIABLES deps, sched, i, layout, pc,
@@ -73,13 +74,14 @@ BlocksFor(d, c, names) ==
 AllN == SeqSet(States) \cup SeqSet(Params) \cup SeqSet(Build)
 ModelOf(d, lo) ==
   IF lo = "single" THEN [blocks |-> BlocksFor(d, "", AllN)]
+  ELSE IF lo = "noparams" THEN [blocks |-> BlocksFor(d, "", AllN \ SeqSet(Params))]
   ELSE [blocks |-> BlocksFor(d, "A", {n \in AllN : CompOf(lo, n) = "A"})
                    \o BlocksFor(d, "B", {n \in AllN : CompOf(lo, n) = "B"})]
 
 None == [none |-> TRUE]
 Init == deps = <<>> /\ sched = <<>> /\ i = 1 /\ layout \in CompLayouts /\ pc = "build" /\ mi = None /\ lay = None
 Choose == /\ pc = "build" /\ i <= Len(Build)
-          /\ \E S \in DepChoices(i) :
+          /\ \E S \in DepChoices(i, layout) :
                /\ deps' = deps @@ (Build[i] :> S)
                /\ IF FreeSchedule THEN \E pm \in Perms(S) : sched' = sched @@ (Build[i] :> pm)
                   ELSE sched' = sched @@ (Build[i] :> SortByName(S))
@@ -140,7 +142,7 @@ BlocksJson(bs) == IF bs = <<>> THEN <<>> ELSE
 DepCount == Cardinality(UNION {deps[n] : n \in DOMAIN deps})
 Hash == LET RECURSIVE H(_)
             H(j) == IF j > Len(Build) THEN 0 ELSE (j * 7 + 3) * (1 + Cardinality(deps[Build[j]]) + 2 * Cardinality(deps[Build[j]] \cap {"x", "q", "u"})) + H(j + 1)
-        IN H(1) + (IF layout = "single" THEN 0 ELSE 5)
+        IN H(1) + (IF layout = "single" THEN 0 ELSE IF layout = "split" THEN 5 ELSE 11)
 Expect(inp) ==
   LET den == DenAll(mi, inp) IN
   [rhs |-> DerivsByState(den), monitor |-> [n \in mi.aN |-> den[n]],
@@ -151,6 +153,7 @@ InputJson(inp) == [t |-> inp.t, dt |-> inp.dt, states |-> inp.states, params |->
 Emit == (Done /\ EmitMod > 0 /\ Hash % EmitMod = 0) =>
    PrintT(ToJson([blocks |-> BlocksJson(ModelOf(deps, layout).blocks),
                   delta |-> "0.25", names |-> NameOrder,
+                  defaults |-> [n \in mi.sN \cup mi.pN |-> Eval(mi.ex[n], <<>>, FALSE)],
                   unused |-> {n \in mi.iN : ~HasDependents(mi, n)},
                   cases |-> [ii \in 1..Len(Inputs) |-> [input |-> InputJson(Inputs[ii]), expect |-> Expect(Inputs[ii])]]]))
 =============================================================================
